@@ -283,7 +283,7 @@ func TestCheck(t *testing.T) {
 	defer rec.Close()
 	initCA()
 	rec.Note("rule", "a case is one scenario against the real SPIFFE object in a synctest bubble with a scripted issuer signing real SVIDs: (order) each of the six first-call orders of Run / Ready / GetX509SVID from separate goroutines x initial fetch succeeding or failing x consumer additionally parked inside GetX509SVID while it holds the read lock; (renewal) a seeded script of 3-8 issuer outcomes (validity windows from 2 s to 30 days, already past half-life, expired, not yet valid; failures) with the virtual clock advanced in seeded steps of seconds to hours, optionally writing the identity to a directory and rotating the trust anchors. Non-trivial = the issuer received at least one request; distinct = distinct scenario description.")
-	rec.Note("require", []string{"order.get_first", "order.ready_first", "order.run_first", "order.initial_fetch_failed", "order.consumer_parked_with_rlock", "renewal.requests", "renewal.on_time", "renewal.retry_after_failure", "renewal.served_latest_checked", "renewal.fresh_keys_checked", "files.sets_checked"})
+	rec.Note("require", []string{"order.get_first", "order.ready_first", "order.run_first", "order.initial_fetch_failed", "order.second_run_refused", "order.consumer_parked_with_rlock", "renewal.requests", "renewal.on_time", "renewal.retry_after_failure", "renewal.served_latest_checked", "renewal.fresh_keys_checked", "files.sets_checked"})
 	ps := plans()
 	rec.Planned(len(ps))
 	for idx, pl := range ps {
@@ -414,6 +414,21 @@ func orderScenario(w *world, pl plan, bubble bool) (candidate string) {
 	}
 	if rd != nil {
 		w.violation("order/ready-error", fmt.Sprintf("Ready returned %v", rd))
+	}
+	// a second Run on the same object - whether the first one failed or is still running - is
+	// refused with an error: it must neither block nor crash (a crash would take every consumer of
+	// the SVID source down with it)
+	run2 := make(chan error, 1)
+	go func() { run2 <- s.Run(ctx) }()
+	settle()
+	select {
+	case err := <-run2:
+		if err == nil {
+			w.violation("order/second-run-accepted", "a second Run on the same SPIFFE object returned nil")
+		}
+		rec.Count("order.second_run_refused", 1)
+	default:
+		return fmt.Sprintf("order %v: a second Run (first one %s) did not return", pl.order, map[bool]string{false: "running", true: "failed"}[pl.fail])
 	}
 	if pl.fail {
 		rec.Count("order.initial_fetch_failed", 1)
